@@ -1,30 +1,28 @@
 """C04 - Ciphertext integrity: tampered or mis-keyed encrypted messages never decrypt.
 
 Each integrity check must exist, compare the right terms, have the right polarity, react by raising and dominate the
-return of the protected value (E3 over interpreter paths; CFG for the loop in PGPMessage.decrypt).
+return of the protected value.  Everything is decided on interpreter paths (values, recorded decisions, ordered events);
+no rule looks at statement shapes, local names or source text.
   C04.1 MDC compare in IntegrityProtectedSKEDataV1.decrypt          C04.2 prefix repetition check
   C04.3 PKESK checksum in PKESessionKeyV3.decrypt_sk                C04.4 secret-key SHA-1 (254) / checksum (255) guards
-  C04.5 PGPMessage.decrypt: only non-raising exit is the success arm; failures continue; for-else raises
-  C04.6 PGPKey.decrypt: raises unless addressed; delegates to the addressed subkey; picks its own session-key packet
-  C04.7 ECDH: unwrap result goes through unpadder.update + finalize
+  C04.5 PGPMessage.decrypt: a path returns only the object that parsed container.decrypt(key, alg) with the (alg, key) a
+        passphrase session-key packet of this message gave for the caller's passphrase; every other path raises
+  C04.6 PGPKey.decrypt: truth table over (my key id among the recipients, a subkey id among the recipients): own packet /
+        delegation to that subkey / raise; the own packet is selected by type, algorithm and key id
+  C04.7 ECDH: the unwrapped value is returned only through PKCS#5 unpadding (update + finalize of one unpadder)
 """
 import ast
+import itertools
 import re
 
-from sa.interp import sl, Interp, Scenario, Sym, Const, Bytes, render
-from sa.loader import AnalysisError, dotted
-from sa.cfg import CFG, calls_in
+from sa.interp import sl, Interp, Scenario, Const, Obj, render, Enum
+from sa.loader import AnalysisError
 from sa import guards
+from sa.vocab import FUNCTIONS as VOCAB_FUNCS
+from sa.paths import (BV, PathFrame, implied, consistent, eq_atom, isinstance_atom, truth_atom, positional, call_text, canon_text,
+                      skel_from_text)
 
-noinline = lambda f: False  # noqa: E731
-
-
-def _callarg(states, suffix):
-    for s in states:
-        for c in s.calls:
-            if c[0].endswith(suffix):
-                return '%s(%s)' % (c[0], ', '.join(list(c[1]) + ['%s=%s' % kv for kv in c[2].items()]))
-    return None
+noinline = lambda f: f.name not in VOCAB_FUNCS  # noqa: E731   (only helpers an edit introduced are looked into)
 
 
 def run(rep, prog, tier):
@@ -32,7 +30,8 @@ def run(rep, prog, tier):
     rep.rule('C04.2', 'prefix quick check: last two octets of the random block compared with the two that follow; mismatch raises', floor=1)
     rep.rule('C04.3', 'PKESK: sum(session key) mod 65536 compared with the two-octet checksum; mismatch raises', floor=2)
     rep.rule('C04.4', 'secret key: SHA-1 (usage 254) and 16-bit sum (usage 255) of the decrypted material checked; mismatch raises', floor=2)
-    rep.rule('C04.5', 'PGPMessage.decrypt returns only after a successful parse(decrypt(..)); every failure continues; for-else raises', floor=4)
+    rep.rule('C04.5', 'PGPMessage.decrypt returns only the object that parsed the container decrypted with the (key, cipher) a passphrase '
+             'session-key packet of this message gave for the caller\'s passphrase; every other path raises', floor=4)
     rep.rule('C04.6', 'PGPKey.decrypt raises unless the message is addressed to it or a subkey; delegates to that subkey; selects its own PKESK', floor=4)
     rep.rule('C04.7', 'ECDH decrypt returns the unwrapped value only through PKCS#5 unpadding (update + finalize)', floor=2)
     rep.assume('SHA-1/MDC detects modification; AES key unwrap raises on a corrupted wrap (cryptographic arguments, trusted)')
@@ -45,66 +44,126 @@ def run(rep, prog, tier):
     ecdh(rep, prog)
 
 
+# ------------------------------------------------------------------------------------------------ shared helpers
+def _calls(outs, pred):
+    """Distinct recorded calls (by function text and arguments) over all paths."""
+    seen, out = set(), []
+    for s in outs:
+        for c in s.calls:
+            if pred(c):
+                k = (c[0], tuple(c[1]), tuple(sorted(c[2].items())))
+                if k not in seen:
+                    seen.add(k)
+                    out.append(c)
+    return out
+
+
+def _symdecrypt(prog, outs, what):
+    """The one call of the symmetric primitive `_decrypt` in a function: (text of its value, positional argument texts)."""
+    names = prog.function('pgpy.symenc', '_decrypt').params
+    cs = _calls(outs, lambda c: c[0] == '_decrypt')
+    if not cs:
+        raise AnalysisError('%s no longer calls _decrypt' % what)
+    if len(cs) != 1:
+        raise AnalysisError('%s: %d different _decrypt calls (one expected)' % (what, len(cs)))
+    return call_text(cs[0]), positional(cs[0], names)
+
+
+def _has_guard_atom(outs, side_pred):
+    for s in outs:
+        for f in s.facts:
+            for a in guards.atoms(f[2]):
+                eq = guards.equality_of(a)
+                if eq is not None and (side_pred(eq[0], eq[1]) or side_pred(eq[1], eq[0])):
+                    return True
+    return False
+
+
+_SUM16 = (re.compile(r'^\(sum\((.*)\) % 65536\)$'), re.compile(r'^\(sum\((.*)\) & 65535\)$'))
+_BE16 = (re.compile(r'^self\.bytes_to_int\((.*)\)$'), re.compile(r"^int\.from_bytes\((.*), (?:byteorder=)?'big'\)$"),
+         re.compile(r"^struct\.unpack\('[>!]H', (.*)\)\[0\]$"))
+
+
+def _inner(pats, text):
+    for p in pats:
+        m = p.match(text)
+        if m:
+            return m.group(1)
+    return None
+
+
+# ------------------------------------------------------------------------------------------------ C04.1 / C04.2
 def seipd(rep, prog):
     fi = prog.method('pgpy.packet.packets', 'IntegrityProtectedSKEDataV1', 'decrypt')
     rep.saw(fn=fi)
+    key, alg = fi.params[1], fi.params[2]
     outs = Interp(prog, Scenario(inline=noinline)).run(fi)
     rep.analysed['paths'] += len(outs)
-    PT = None
-    for s in outs:
-        for c in s.calls:
-            if c[0] == '_decrypt':
-                PT = '_decrypt(%s)' % ', '.join(c[1])
-    if PT is None:
-        raise AnalysisError('IntegrityProtectedSKEDataV1.decrypt no longer calls _decrypt')
-    rep.check(PT == '_decrypt(self.ct, key, alg)', 'C04.1', 'IntegrityProtectedSKEDataV1.decrypt', 'plaintext = %s' % PT,
+    PT, args = _symdecrypt(prog, outs, 'IntegrityProtectedSKEDataV1.decrypt')
+    ok = args is not None and args[:3] == ['self.ct', key, alg] and args[3:] in ([], ['None'])
+    rep.check(ok, 'C04.1', 'IntegrityProtectedSKEDataV1.decrypt', 'plaintext = %s' % PT,
               'the whole ciphertext must be decrypted with the session key and cipher (zero IV)', where=fi.where,
-              expected='_decrypt(self.ct, key, alg)', found=PT)
+              expected='_decrypt(self.ct, %s, %s)' % (key, alg), found=PT)
+
+    def P(t):
+        return t.replace(PT, 'PT')
 
     def mdc_sides(a, b):
-        a2, b2 = a.replace(PT, 'PT'), b.replace(PT, 'PT')
-        return a2 == 'SLICE(PT;-22;)' and b2 == 'C(d314) HASH(sha1;SLICE(PT;;-20))'
-    guards.check_guard(rep, 'C04.1', 'IntegrityProtectedSKEDataV1.decrypt', outs, mdc_sides,
-                       'the MDC comparison (last 22 octets == d3 14 || SHA-1(plaintext[:-20]))', fi.where)
-    BS = '(alg.block_size // 8)'
+        # the digest may be taken over PT[:-20], or over PT[:-22] || d3 14: the same thing once the first two of the 22
+        # compared octets are d3 14, which this very comparison establishes
+        return P(a) == 'SLICE(PT;-22;)' and P(b) in ('C(d314) HASH(sha1;SLICE(PT;;-20))', 'C(d314) HASH(sha1;SLICE(PT;;-22) C(d314))')
+
+    def mdc_digest(a, b):
+        return P(a) == 'SLICE(PT;-20;)' and P(b) == 'HASH(sha1;SLICE(PT;;-20))'
+
+    def mdc_header(a, b):
+        return P(a) == 'SLICE(PT;-22;-20)' and P(b) == 'C(d314)'
+    if not _has_guard_atom(outs, mdc_sides) and _has_guard_atom(outs, mdc_digest):
+        # the same check written as two comparisons: the 20 digest octets and the two header octets d3 14
+        guards.check_guard(rep, 'C04.1', 'IntegrityProtectedSKEDataV1.decrypt', outs, mdc_digest,
+                           'the MDC digest comparison (last 20 octets == SHA-1(plaintext[:-20]))', fi.where)
+        guards.check_guard(rep, 'C04.1', 'IntegrityProtectedSKEDataV1.decrypt', outs, mdc_header,
+                           'the MDC header comparison (octets -22..-20 == d3 14)', fi.where)
+    else:
+        guards.check_guard(rep, 'C04.1', 'IntegrityProtectedSKEDataV1.decrypt', outs, mdc_sides,
+                           'the MDC comparison (last 22 octets == d3 14 || SHA-1(plaintext[:-20]))', fi.where)
+    BS = '(%s.block_size // 8)' % alg
 
     def iv_sides(a, b):
-        a2, b2 = a.replace(PT, 'PT'), b.replace(PT, 'PT')
-        return a2 == sl('PT', ('', BS), (-2, '')) and b2 == sl('PT', (BS, ''), ('', 2))
+        return P(a) == sl('PT', ('', BS), (-2, '')) and P(b) == sl('PT', (BS, ''), ('', 2))
     guards.check_guard(rep, 'C04.2', 'IntegrityProtectedSKEDataV1.decrypt', outs, iv_sides,
                        'the prefix repetition check (octets bs-2..bs == octets bs..bs+2)', fi.where)
     # the value returned is the checked plaintext
     for s in outs:
         if s.raised is None:
-            r = render(s.ret).replace(PT, 'PT')
+            r = P(render(s.ret))
             rep.check(r == sl('PT', (BS, ''), (2, '')), 'C04.1', 'IntegrityProtectedSKEDataV1.decrypt', 'return %s' % r,
                       'the value returned must be the plaintext that was checked, minus the %s+2 prefix octets' % BS, where=fi.where,
                       expected='PT[bs+2:]', found=r)
 
 
+# ------------------------------------------------------------------------------------------------ C04.3
 def pkesk(rep, prog):
     fi = prog.method('pgpy.packet.packets', 'PKESessionKeyV3', 'decrypt_sk')
     rep.saw(fn=fi)
     pk = prog.cls('pgpy.constants', 'PubKeyAlgorithm').enum_members()
-    from sa.interp import Enum
     for alg in ('RSAEncryptOrSign', 'ECDH'):
         sc = Scenario(bind={'self.pkalg': Const(Enum('PubKeyAlgorithm', alg, pk[alg]))}, inline=noinline)
         outs = Interp(prog, sc).run(fi)
         rep.analysed['paths'] += len(outs)
-        M = None
-        for s in outs:
-            for c in s.calls:
-                if c[0] == 'self.ct.decrypt':
-                    M = 'self.ct.decrypt(%s)' % ', '.join(c[1])
-        if M is None:
+        cs = _calls(outs, lambda c: c[0] == 'self.ct.decrypt')
+        if not cs:
             raise AnalysisError('PKESessionKeyV3.decrypt_sk no longer calls self.ct.decrypt')
+        if len(cs) != 1:
+            raise AnalysisError('PKESessionKeyV3.decrypt_sk: %d different self.ct.decrypt calls in scenario %s' % (len(cs), alg))
+        M = call_text(cs[0])
         KS = '(SymmetricKeyAlgorithm(M[0]).key_size // 8)'
         KEY = sl('M', (1, ''), ('', KS))
         CHK = sl('M', (1, ''), (KS, ''), ('', 2))
 
         def sides(a, b, _M=M):
             a2, b2 = a.replace(_M, 'M'), b.replace(_M, 'M')
-            return a2 == '(sum(%s) %% 65536)' % KEY and b2 in ('self.bytes_to_int(%s)' % CHK, 'int.from_bytes(%s, \'big\')' % CHK)
+            return _inner(_SUM16, a2) == KEY and _inner(_BE16, b2) == CHK
         guards.check_guard(rep, 'C04.3', 'PKESessionKeyV3.decrypt_sk', outs, sides,
                            'the session-key checksum (sum of key octets mod 65536 == the two octets after the key)', fi.where,
                            scenario=alg)
@@ -116,21 +175,19 @@ def pkesk(rep, prog):
                           where=fi.where, expected='(SymmetricKeyAlgorithm(M[0]), M[1:1+ks])', found=r, scenario=alg)
 
 
+# ------------------------------------------------------------------------------------------------ C04.4
 def keyblob(rep, prog):
     fi = prog.method('pgpy.packet.fields', 'PrivKey', 'decrypt_keyblob')
     rep.saw(fn=fi)
+    pw = fi.params[1]
     for usage, what in ((254, 'SHA-1'), (255, 'checksum')):
-        sc = Scenario(bind={'self.s2k.usage': Const(usage)}, axioms={'not self.s2k': False}, inline=noinline)
+        sc = Scenario(bind={'self.s2k.usage': Const(usage)}, axioms={'not self.s2k': False, 'self.s2k': True}, inline=noinline)
         outs = Interp(prog, sc).run(fi)
         rep.analysed['paths'] += len(outs)
-        PT = None
-        for s in outs:
-            for c in s.calls:
-                if c[0] == '_decrypt':
-                    PT = '_decrypt(%s)' % ', '.join(c[1])
-        if PT is None:
-            raise AnalysisError('PrivKey.decrypt_keyblob no longer calls _decrypt')
-        rep.check(PT == '_decrypt(self.encbytes, self.s2k.derive_key(passphrase), self.s2k.encalg, self.s2k.iv)', 'C04.4',
+        PT, args = _symdecrypt(prog, outs, 'PrivKey.decrypt_keyblob')
+        dk = [c for s in outs for c in s.calls if c[0] == 'self.s2k.derive_key' and list(c[1]) + list(c[2].values()) == [pw]]
+        rep.check(args is not None and len(args) == 4 and [args[0]] + args[2:] == ['self.encbytes', 'self.s2k.encalg', 'self.s2k.iv'] and
+                  any(call_text(c) == args[1] for c in dk), 'C04.4',
                   'PrivKey.decrypt_keyblob', 'plaintext = %s' % PT,
                   'the stored ciphertext must be decrypted with the key derived from the passphrase, the stored cipher and IV',
                   where=fi.where, found=PT, scenario='usage %d' % usage)
@@ -142,7 +199,7 @@ def keyblob(rep, prog):
         else:
             def sides(a, b, _PT=PT):
                 a2, b2 = a.replace(_PT, 'PT'), b.replace(_PT, 'PT')
-                return a2 == 'self.bytes_to_int(SLICE(PT;-2;))' and b2 == '(sum(SLICE(PT;;-2)) % 65536)'
+                return _inner(_BE16, a2) == 'SLICE(PT;-2;)' and _inner(_SUM16, b2) == 'SLICE(PT;;-2)'
             desc = 'the 16-bit checksum of the decrypted secret material (last 2 octets == sum of the rest mod 65536)'
         guards.check_guard(rep, 'C04.4', 'PrivKey.decrypt_keyblob', outs, sides, desc, fi.where, scenario='usage %d' % usage)
         for s in outs:
@@ -153,151 +210,403 @@ def keyblob(rep, prog):
                           scenario='usage %d' % usage)
 
 
+# ------------------------------------------------------------------------------------------------ the decrypt chain (C04.5 / C04.6)
+class _Paths(PathFrame):
+    # helpers that are not part of the reference vocabulary (extracted by an edit) and that the canonicaliser could not make
+    # transparent (a return inside a loop, ...) are followed path by path where they are called as a statement
+    path_inline = staticmethod(lambda fi: fi.name not in VOCAB_FUNCS)
+
+
+def _paths(prog, fi, **kw):
+    it = Interp(prog, Scenario(inline=noinline, **kw))
+    it.frame_cls = _Paths
+    return it.run(fi)
+
+
+def _subclasses(prog, name):
+    out = set()
+    for cis in prog.classes_by_name.values():
+        for ci in cis:
+            if any(c.name == name for c in ci.mro()):
+                out.add(ci.name)
+    if name not in out:
+        raise AnalysisError('class %s not found' % name)
+    return out
+
+
+def _container_params(prog):
+    """(key, alg) parameter names of the encrypted-data containers' decrypt (both containers are called through one site)."""
+    names = None
+    for cn in ('SKEData', 'IntegrityProtectedSKEDataV1'):
+        p = prog.method('pgpy.packet.packets', cn, 'decrypt').params[1:]
+        if names is not None and p != names:
+            raise AnalysisError('SKEData.decrypt and IntegrityProtectedSKEDataV1.decrypt disagree on their parameters')
+        names = p
+    if len(names) != 2:
+        raise AnalysisError('container decrypt is expected to take (key, alg); found %s' % names)
+    return names
+
+
+class Chain(object):
+    """What a returning path did, read backwards from the value it returns."""
+    def __init__(self):
+        self.why = None          # None = complete; else (kind, text): which link is missing / wrong
+        self.packet = None       # text of the session-key packet decrypt_sk was called on
+        self.at = None           # index of the decrypt_sk event
+
+
+def _chain(prog, s, owner, secret, dec_params):
+    """s returns normally.  Links, each found by what it does:
+         return O            O is a PGPMessage constructed in this function
+         O.parse(D)          after O's construction; every parse O received takes such a D
+         D = C.decrypt(K, A) C is the encrypted-data container of `owner` (owner.message)
+         K, A = R[1], R[0]   R = X.decrypt_sk(secret): the (cipher, key) pair that call returned, not swapped
+       in this order on the path."""
+    ch = Chain()
+    ev = s.events
+    if not (isinstance(s.ret, Obj) and s.ret.cls is not None and s.ret.cls.name == 'PGPMessage'):
+        ch.why = ('result', 'returns %s, which is not a message object that parsed decrypted data' % (render(s.ret) if s.ret is not None else None))
+        return ch
+    name = s.ret.name
+    born = max([i for i, e in enumerate(ev) if e[0] == 'assign' and e[1] == name and e[2] == name] or [-1])
+    parses = [(i, e) for i, e in enumerate(ev) if e[0] == 'call' and e[1] == name + '.parse' and i > born]
+    if not parses:
+        ch.why = ('result', 'returns a message object that never parsed anything')
+        return ch
+    pparams = prog.method('pgpy.pgp', 'PGPMessage', 'parse').params[1:]
+    containers = ('%s.message' % owner, '%s._message' % owner)
+    for i, e in parses:
+        a = positional(e[1:], pparams)
+        if a is None or len(a) != 1:
+            ch.why = ('parse', 'parse(%s)' % (e[2],))
+            return ch
+        decs = [(j, d) for j, d in enumerate(ev[:i]) if d[0] == 'call' and d[1].endswith('.decrypt') and call_text(d[1:]) == a[0]]
+        if not decs or decs[-1][1][1][:-len('.decrypt')] not in containers:
+            ch.why = ('parse', 'the data parsed is %s, not the decryption of the encrypted-data container of this message' % a[0][:120])
+            return ch
+        j, d = decs[-1]
+        ka = positional(d[1:], dec_params)
+        sks = [(k, c) for k, c in enumerate(ev[:j]) if c[0] == 'call' and c[1].endswith('.decrypt_sk')]
+        hit = None
+        for k, c in sks:
+            r = call_text(c[1:])
+            if ka == ['%s[1]' % r, '%s[0]' % r]:
+                hit = (k, c)
+        if hit is None:
+            ch.why = ('container', 'container decrypt%s does not get the (key, cipher) that a decrypt_sk call on this path returned' % (ka,))
+            return ch
+        k, c = hit
+        if list(c[2]) + list(c[3].values()) != [secret]:
+            ch.why = ('secret', 'decrypt_sk(%s) is not given %s' % (', '.join(list(c[2]) + ['%s=%s' % kv for kv in c[3].items()]), secret))
+            return ch
+        ch.packet, ch.at = c[1][:-len('.decrypt_sk')], k
+    return ch
+
+
+# ------------------------------------------------------------------------------------------------ C04.5
 def message_decrypt(rep, prog):
     fi = prog.method('pgpy.pgp', 'PGPMessage', 'decrypt')
     rep.saw(fn=fi)
-    g = CFG(fi.node)
-    loops = [n for n in g.nodes if n.kind == 'loop' and isinstance(n.ast, ast.For)]
-    if len(loops) != 1:
-        raise AnalysisError('PGPMessage.decrypt: expected one loop over the session-key packets, found %d' % len(loops))
-    head = loops[0]
-    # the loop iterates over passphrase packets of this message
-    it = ast.unparse(head.ast.iter)
-    rep.check('_sessionkeys' in it and 'SKESessionKey' in it, 'C04.5', 'PGPMessage.decrypt', 'iterates %s' % it,
-              'the candidates must be the passphrase session-key packets of this message', where=fi.where, found=it)
-    # success statement: parse(decrypt(...)) ; every normal exit must pass through its normal out-edge
-    def is_parse_decrypt(st):
-        for c in calls_in(st):
-            if isinstance(c.func, ast.Attribute) and c.func.attr == 'parse':
-                inner = [x for a in c.args for x in ast.walk(a) if isinstance(x, ast.Call) and isinstance(x.func, ast.Attribute)
-                         and x.func.attr == 'decrypt']
-                if inner:
-                    return True
-        return False
-    succ = [n for n in g.nodes if n.kind == 'stmt' and n.ast is not None and is_parse_decrypt(n.ast)]
-    if len(succ) != 1:
-        raise AnalysisError('PGPMessage.decrypt: expected one parse(decrypt(..)) statement, found %d' % len(succ))
-    sn = succ[0]
-    skip = set((sn.id, m, lab) for m, lab in g.succ[sn.id] if lab != 'exc')
-    r = g.reachable(g.entry.id, skip_edges=skip)
-    rep.check(g.exit.id not in r, 'C04.5', 'PGPMessage.decrypt', 'normal exit without a successful parse(decrypt(..))',
+    W = 'PGPMessage.decrypt'
+    pw = fi.params[1]
+    outs = _paths(prog, fi)
+    rep.analysed['paths'] += len(outs)
+    dec_params = _container_params(prog)
+    ske = _subclasses(prog, 'SKESessionKey')
+    rets = [s for s in outs if s.raised is None]
+    if not rets:
+        rep.violation('C04.5', W, 'no returning path', 'the function has no returning path at all', where=fi.where)
+        return
+    # precondition: a returning path has established that the message is encrypted
+    bad = [s for s in rets if not implied(s.facts, lambda a: False if truth_atom(a, 'self.is_encrypted') else None)]
+    rep.check(not bad, 'C04.5', W, 'not-encrypted precondition', 'decrypting a message that is not encrypted must raise', where=fi.where,
+              found='a returning path decides only %s' % [f[0] for f in bad[0].facts] if bad else None)
+    # the success chain on every returning path; the other ways out of the search must raise
+    groups = {'chain': [], 'exhausted': [], 'handler': [], 'secret': [], 'container': []}
+    packets = []
+    for s in rets:
+        ch = _chain(prog, s, 'self', pw, dec_params)
+        if ch.why is None:
+            packets.append((s, ch))
+            continue
+        kind, text = ch.why
+        if kind in ('secret', 'container'):
+            groups[kind].append(text)
+        elif any(e[0] == 'exhausted' for e in s.events) and kind == 'result':
+            groups['exhausted'].append(text)
+        elif any(f[0].startswith('except') for f in s.facts):
+            groups['handler'].append(text)
+        else:
+            groups['chain'].append(text)
+    g = groups['chain']
+    rep.check(not g, 'C04.5', W, 'normal exit without a successful parse(decrypt(..))',
               'the function can return without any session key having decrypted and parsed the message', where=fi.where,
-              expected='every path to the normal exit passes the normal completion of decmsg.parse(self.message.decrypt(key, symalg))',
-              found='normal exit reachable with that edge removed')
-    # the key handed to decrypt comes from decrypt_sk of the loop's packet with the caller's passphrase
-    outs = Interp(prog, Scenario(bind={'self.is_encrypted': Const(True)}, inline=noinline)).run(fi)
-    dsk, dec = [], []
-    for s in outs:
-        for c in s.calls:
-            if c[0].endswith('.decrypt_sk') and c not in dsk:
-                dsk.append(c)
-            if c[0] == 'self.message.decrypt' and c not in dec:
-                dec.append(c)
-    ok = len(dsk) == 1 and dsk[0][0] == '$1.decrypt_sk' and dsk[0][1] == ['passphrase']     # $1: the loop's packet
-    rep.check(ok, 'C04.5', 'PGPMessage.decrypt', 'decrypt_sk call %s' % [(c[0], c[1]) for c in dsk],
-              'the session key must be recovered from the loop\'s packet with the caller\'s passphrase', where=fi.where)
-    ok = len(dec) == 1 and dec[0][1] == ['$1.decrypt_sk(passphrase)[1]', '$1.decrypt_sk(passphrase)[0]']
-    rep.check(ok, 'C04.5', 'PGPMessage.decrypt', 'container decrypt args %s' % [c[1] for c in dec],
-              'the container must be decrypted with the (key, cipher) that decrypt_sk returned', where=fi.where,
-              expected='self.message.decrypt(key, symalg)', found=[c[1] for c in dec])
-    # handlers: failures continue (never break / return / pass to fall out of the loop as success)
-    for h in [n for n in g.nodes if n.kind == 'handler']:
-        names = [dotted(e) for e in (h.ast.type.elts if isinstance(h.ast.type, ast.Tuple) else [h.ast.type])] if h.ast.type is not None else ['<bare>']
-        reach = g.reachable(h.id, skip_nodes={head.id})
-        rep.check(g.exit.id not in reach, 'C04.5', 'PGPMessage.decrypt', 'except %s leaves the loop' % names,
-                  'a failed attempt must go on to the next session key (continue), not end the loop as if it had succeeded',
-                  where='%s:%d' % (fi.module.relpath, h.lineno), expected='continue', found='handler reaches the normal exit without re-entering the loop')
-    # for-else raises
-    else_nodes = [m for m, lab in g.succ[head.id] if lab == 'F']
-    ok = bool(else_nodes)
-    for m in else_nodes:
-        reach = g.reachable(m)
-        if g.exit.id in reach:
-            ok = False
-    rep.check(ok, 'C04.5', 'PGPMessage.decrypt', 'for-else arm', 'when no session key worked the function must raise', where=fi.where,
-              expected='else: raise PGPDecryptionError', found='exhausting the loop reaches the normal exit')
-    # precondition
-    src = ast.unparse(fi.node)
-    rep.check('not self.is_encrypted' in src, 'C04.5', 'PGPMessage.decrypt', 'not-encrypted precondition',
-              'decrypting a message that is not encrypted must raise', where=fi.where)
-    # the returned object is the one parsed on the success arm
-    rets = [n for n in g.nodes if n.kind == 'stmt' and isinstance(n.ast, ast.Return)]
-    rep.check(len(rets) == 1 and isinstance(rets[0].ast.value, ast.Name) and rets[0].ast.value.id == 'decmsg', 'C04.5',
-              'PGPMessage.decrypt', 'return value', 'the message returned must be the one parsed from the decrypted data', where=fi.where)
+              expected='every returning path returns the object that parsed container.decrypt(key, alg)', found=g[0] if g else None)
+    g = groups['secret']
+    rep.check(not g, 'C04.5', W, 'decrypt_sk argument', 'the session key must be recovered from the packet with the caller\'s passphrase',
+              where=fi.where, expected='decrypt_sk(%s)' % pw, found=g[0] if g else None)
+    g = groups['container']
+    rep.check(not g, 'C04.5', W, 'container decrypt arguments', 'the container must be decrypted with the (key, cipher) that decrypt_sk returned',
+              where=fi.where, expected='container.decrypt(key, alg) with alg, key = packet.decrypt_sk(%s)' % pw, found=g[0] if g else None)
+    g = groups['handler']
+    rep.check(not g, 'C04.5', W, 'failed attempt ends the search as a success',
+              'a failed attempt must go on to the next session key or raise, not leave the function as if it had succeeded',
+              where=fi.where, expected='continue / raise', found=g[0] if g else None)
+    g = groups['exhausted']
+    rep.check(not g, 'C04.5', W, 'no candidate worked', 'when no session key worked the function must raise', where=fi.where,
+              expected='raise PGPDecryptionError', found=g[0] if g else None)
+    # the packet: a passphrase session-key packet of this message
+    if packets:
+        bad = []
+        for s, ch in packets:
+            x = ch.packet
+            if s.bound.get(x) not in ('self._sessionkeys',) or \
+                    not implied(s.facts, lambda a, _x=x: False if isinstance_atom(a, _x, ske) else None):
+                bad.append('%s ranging over %s, decisions %s' % (x, s.bound.get(x), [f[0] for f in s.facts if x in f[0]]))
+        rep.check(not bad, 'C04.5', W, 'candidate session-key packets',
+                  'the candidates must be the passphrase session-key packets of this message', where=fi.where,
+                  expected='an element of self._sessionkeys tested with isinstance(.., SKESessionKey)', found=bad[0] if bad else None)
+
+
+# ------------------------------------------------------------------------------------------------ C04.6
+_SETLIKE = ('set', 'frozenset', 'list', 'tuple', 'sorted')
+
+
+def _coll_kind(node, subs, encs):
+    """'S' = the ids of this key's subkeys, 'E' = the recipients of the message (through any set/list wrapper)."""
+    if isinstance(node, ast.Call) and isinstance(node.func, ast.Name) and node.func.id in _SETLIKE and len(node.args) == 1 and not node.keywords:
+        return _coll_kind(node.args[0], subs, encs)
+    if isinstance(node, ast.Call) and isinstance(node.func, ast.Attribute) and node.func.attr == 'keys' and not node.args:
+        return 'S' if ast.unparse(node.func.value) in subs else None
+    t = ast.unparse(node)
+    return 'S' if t in subs else 'E' if t in encs else None
+
+
+def _is_common(text, subs, encs):
+    """text denotes (subkey ids) intersected with (recipients)."""
+    m = re.match(r'^(?:(?:set|frozenset|list|tuple|sorted)\()?EACH\((%s) in (.+?) if \(?(%s) in (.+?)\)?;(%s)\)\)?$' % (BV, BV, BV), text)
+    if m and m.group(1) == m.group(3) == m.group(5):
+        a, b = canon_text(m.group(2)), canon_text(m.group(4))
+        kinds = set()
+        for t in (a, b):
+            try:
+                kinds.add(_coll_kind(ast.parse(t, mode='eval').body, subs, encs))
+            except SyntaxError:
+                return False
+        return kinds == {'S', 'E'}
+    try:
+        n = ast.parse(text, mode='eval').body
+    except SyntaxError:
+        return False
+    if isinstance(n, ast.Call) and isinstance(n.func, ast.Name) and n.func.id in _SETLIKE and len(n.args) == 1:
+        return _is_common(ast.unparse(n.args[0]), subs, encs)
+    if isinstance(n, ast.BinOp) and isinstance(n.op, ast.BitAnd):
+        return {_coll_kind(n.left, subs, encs), _coll_kind(n.right, subs, encs)} == {'S', 'E'}
+    if isinstance(n, ast.Call) and isinstance(n.func, ast.Attribute) and n.func.attr == 'intersection' and len(n.args) == 1:
+        return {_coll_kind(n.func.value, subs, encs), _coll_kind(n.args[0], subs, encs)} == {'S', 'E'}
+    return False
+
+
+def _split_top(text, sep):
+    """Split at the separator where it is not nested in brackets."""
+    out, depth, last, i = [], 0, 0, 0
+    while i < len(text):
+        ch = text[i]
+        if ch in '([{':
+            depth += 1
+        elif ch in ')]}':
+            depth -= 1
+        elif depth == 0 and text.startswith(sep, i):
+            out.append(text[last:i])
+            i += len(sep)
+            last = i
+            continue
+        i += 1
+    out.append(text[last:])
+    return out
+
+
+def _element_of(text):
+    """text picks one element of a collection: the collection's text, else None."""
+    for pat in (r'^(?:list|tuple|sorted)\((.*)\)\[(?:0|-1)\]$', r'^next\(iter\((.*)\)\)$', r'^(?:min|max)\((.*)\)$', r'^(.*)\.pop\(\)$',
+                r'^next\((EACH\(.*\))(?:, None)?\)$', r'^(EACH\(.*\))\[(?:0|-1)\]$'):
+        m = re.match(pat, text)
+        if m:
+            return m.group(1)
+    return None
 
 
 def key_decrypt(rep, prog):
     fi = prog.method('pgpy.pgp', 'PGPKey', 'decrypt')
     rep.saw(fn=fi)
-    outs = Interp(prog, Scenario(bind={'message.is_encrypted': Const(True)}, inline=noinline)).run(fi)
+    W = 'PGPKey.decrypt'
+    msg = fi.params[1]
+    outs = _paths(prog, fi, bind={'%s.is_encrypted' % msg: Const(True)})
     rep.analysed['paths'] += len(outs)
-    kinds = {'raise': 0, 'delegate': 0, 'own': 0}
-    for s in outs:
-        facts = dict((f[0], f[1]) for f in s.facts)
-        addressed = facts.get('(self.fingerprint.keyid not in message.encrypters)')
-        if addressed is None:
-            addressed = facts.get('(self.fingerprint.keyid in message.encrypters)')
-            addressed = None if addressed is None else (not addressed)
-        if addressed is None:
-            rep.violation('C04.6', 'PGPKey.decrypt', 'path without recipient test %s' % list(facts),
-                          'a path does not test whether the message is addressed to this key', where=fi.where)
-            continue
-        not_mine = addressed
-        if not_mine:
-            sub = [v for t, v in facts.items() if 'self.subkeys' in t and 'message.encrypters' in t]
-            if sub and sub[0]:
-                kinds['delegate'] += 1
-                r = render(s.ret)
-                ok = re.match(r'^self\.subkeys\[list\(\(set\(self\.subkeys\) & set\(message\.encrypters\)\)\)\[0\]\]\.decrypt\(message\)$', r) is not None
-                rep.check(ok and s.raised is None, 'C04.6', 'PGPKey.decrypt', 'delegation %s' % r,
-                          'delegation must go to a subkey that is among the recipients, with the same message', where=fi.where, found=r)
-            else:
-                kinds['raise'] += 1
-                rep.check(s.raised is not None, 'C04.6', 'PGPKey.decrypt', 'non-recipient path %s' % (s.raised or render(s.ret)),
-                          'a key that is not a recipient (nor has a recipient subkey) must raise', where=fi.where,
-                          expected='raise PGPError', found='returns %s' % (render(s.ret) if s.ret is not None else None))
+    dec_params = _container_params(prog)
+    pke = _subclasses(prog, 'PKESessionKey')
+    me = 'self.fingerprint.keyid'
+    subs = ('self.subkeys', 'self._children')
+    encs = ('%s.encrypters' % msg,)
+
+    def atom_mine(a):
+        """True: atom true <=> my key id is among the recipients; False: the negation; None: another atom."""
+        if a[0] == 'cmp' and a[1] in ('in', 'not in') and canon_text(a[2]) == me:
+            try:
+                k = _coll_kind(ast.parse(canon_text(a[3]), mode='eval').body, subs, encs)
+            except SyntaxError:
+                k = None
+            if k == 'E':
+                return a[1] == 'in'
+        return None
+
+    def atom_sub(a):
+        """True: atom true <=> some subkey id is among the recipients; False: the negation; None: another atom."""
+        if a[0] == 'expr' and _is_common(a[1], subs, encs):
+            return True
+        if a[0] == 'call' and _is_common('%s(%s)' % (a[1], ', '.join(a[2])), subs, encs):
+            return True
+        if a[0] == 'call' and a[1] == 'bool' and len(a[2]) == 1 and _is_common(a[2][0], subs, encs):
+            return True
+        if a[0] == 'call' and a[1].endswith('.isdisjoint') and len(a[2]) == 1 and _is_common('%s.intersection(%s)' % (a[1][:-len('.isdisjoint')], a[2][0]), subs, encs):
+            return False
+        if a[0] == 'cmp':
+            l, r = canon_text(a[2]), canon_text(a[3])
+            m = re.match(r'^len\((.*)\)$', l)
+            if m and _is_common(m.group(1), subs, encs):
+                if (a[1], r) in (('>', '0'), ('!=', '0'), ('>=', '1')):
+                    return True
+                if (a[1], r) in (('==', '0'), ('<', '1'), ('<=', '0')):
+                    return False
+            if _is_common(l, subs, encs) and r in ('set()', 'frozenset()') and a[1] in ('==', '!='):
+                return a[1] == '!='
+        return None
+
+    def classify(s):
+        """-> (kind, problem): kind in raise / delegate / own / other."""
+        if s.raised is not None:
+            return 'raise', None
+        rt = render(s.ret) if s.ret is not None else 'None'
+        # delegation: <subkeys>[K].decrypt(message) with K one of the common ids
+        for c in s.calls:
+            sub = [t for t in subs if c[0].startswith(t + '[') and c[0].endswith('].decrypt')]
+            if sub and call_text(c) == rt:
+                k = c[0][len(sub[0]) + 1:-len('].decrypt')]
+                coll = s.bound.get(k) if k in s.bound else _element_of(k)
+                if positional(c, [msg]) != [msg]:
+                    return 'delegate', 'the subkey is handed %s, not the message' % (c[1] or c[2])
+                if coll is None or not _is_common(coll, subs, encs):
+                    return 'delegate', 'the subkey %s is not taken from the ids common to the subkeys and the recipients' % k
+                return 'delegate', None
+        ch = _chain(prog, s, msg, 'self._key', dec_params)
+        if ch.why is not None:
+            return 'other', ch.why[1]
+        # the packet the session key came from: selected by type, algorithm and key id
+        x = ch.packet
+        facts = None
+        if x in s.bound:
+            v, coll, facts = x, s.bound[x], s.facts
         else:
-            kinds['own'] += 1
-            sel = s.env.get('pkesk')
-            t = render(sel) if sel is not None else ''
-            _m = re.search(r'EACH\((\$\d+) in message\._sessionkeys if (.*);\1\)', t)
-            _v = _m.group(1) if _m else '$1'
-            _c = (_m.group(2) if _m else '').replace(' ', '')
-            conj = bool(_m) and all(x in _c for x in ('isinstance(%s,PKESessionKey)' % _v, '%s.pkalg==self.key_algorithm' % _v)) and \
-                any(x in _c for x in ('%s.encrypter==self.fingerprint.keyid' % _v, 'self.fingerprint.keyid==%s.encrypter' % _v)) and ' or ' not in _m.group(2)
-            rep.check(conj, 'C04.6', 'PGPKey.decrypt', 'session-key packet selection %s' % t[:140],
-                      'the packet used must be a public-key session-key packet of this message addressed to this key id and algorithm',
-                      where=fi.where, expected='next(pk for pk in message._sessionkeys if isinstance(pk, PKESessionKey) and '
-                      'pk.pkalg == self.key_algorithm and pk.encrypter == self.fingerprint.keyid)', found=t)
-            dsk = [c for c in s.calls if c[0].endswith('.decrypt_sk')]
-            dec = [c for c in s.calls if c[0] == 'message.message.decrypt']
-            rep.check(len(dsk) == 1 and dsk[0][0] == t + '.decrypt_sk' and dsk[0][1] == ['self._key'], 'C04.6', 'PGPKey.decrypt',
-                      'decrypt_sk(%s)' % (dsk[0][1] if dsk else None),
-                      'the session key must be recovered from the selected packet with this key\'s own secret material', where=fi.where)
-            dargs = [a.replace(t, 'pkesk') for a in dec[0][1]] if dec else None
-            rep.check(len(dec) == 1 and dargs == ['pkesk.decrypt_sk(self._key)[1]', 'pkesk.decrypt_sk(self._key)[0]'], 'C04.6',
-                      'PGPKey.decrypt', 'container decrypt(%s)' % (dargs,),
-                      'the container must be decrypted with the (key, cipher) recovered from that packet', where=fi.where)
-    for k, n in kinds.items():
-        if n == 0:
-            rep.violation('C04.6', 'PGPKey.decrypt', 'no %s path' % k, 'PGPKey.decrypt lacks its %s arm' % k, where=fi.where)
+            e = _element_of(x) or ''
+            m = re.match(r'^EACH\((%s) in (.*);(%s)\)$' % (BV, BV), e)
+            if m and m.group(1) == m.group(3):
+                parts = _split_top(m.group(2), ' if ')
+                v, coll = m.group(1), parts[0]
+                facts = [(c, True, skel_from_text(c)) for c in parts[1:]]       # every filter of the comprehension holds
+        if facts is None or coll not in ('%s._sessionkeys' % msg,):
+            return 'own', 'the session key comes from %s, which is not a selected element of %s._sessionkeys' % (x[:100], msg)
+        need = (('a public-key session-key packet', lambda a: False if isinstance_atom(a, v, pke) else None),
+                ('of this key\'s algorithm', lambda a: _neg(eq_atom(a, '%s.pkalg' % v, 'self.key_algorithm'))),
+                ('addressed to this key id', lambda a: _neg(eq_atom(a, '%s.encrypter' % v, me))))
+        missing = [what for what, f in need if not implied(facts, f)]
+        if missing:
+            return 'own', 'the packet selected is not necessarily %s: %s' % (' / '.join(missing), x[:160])
+        return 'own', None
+
+    def _neg(p):
+        return None if p is None else (not p)
+
+    kinds = [classify(s) for s in outs]
+    allowed = {(True, True): ('own', 'delegate'), (True, False): ('own',), (False, True): ('delegate',), (False, False): ()}
+    label = {(True, True): 'addressed to this key and to a subkey', (True, False): 'addressed to this key',
+             (False, True): 'addressed to a subkey only', (False, False): 'not addressed to this key nor a subkey'}
+    for (a, b) in itertools.product((True, False), repeat=2):
+        def val(atom, _a=a, _b=b):
+            p = atom_mine(atom)
+            if p is not None:
+                return _a if p else (not _a)
+            p = atom_sub(atom)
+            if p is not None:
+                return _b if p else (not _b)
+            return None
+        here = [(s, k) for s, k in zip(outs, kinds) if consistent(s.facts, val)]
+        good = 0
+        ok = True
+        for s, (kind, problem) in here:
+            if kind == 'raise':
+                continue
+            if kind in allowed[(a, b)] and problem is None:
+                good += 1
+                continue
+            ok = False
+            if kind == 'own' and problem is not None:
+                rep.violation('C04.6', W, 'session-key packet selection', 'the packet used must be a public-key session-key packet of this '
+                              'message addressed to this key id and algorithm', where=fi.where,
+                              expected='isinstance(pk, PKESessionKey) and pk.pkalg == self.key_algorithm and pk.encrypter == self.fingerprint.keyid',
+                              found=problem, scenario=label[(a, b)])
+            elif kind == 'delegate' and problem is not None:
+                rep.violation('C04.6', W, 'delegation', 'delegation must go to a subkey that is among the recipients, with the same message',
+                              where=fi.where, found=problem, scenario=label[(a, b)])
+            elif kind == 'other':
+                rep.violation('C04.6', W, 'return without the decrypt chain', 'a path returns something that is not the message parsed from the '
+                              'container decrypted with the (key, cipher) recovered from this key\'s packet with its own secret material',
+                              where=fi.where, found=problem, scenario=label[(a, b)])
+            else:
+                rep.violation('C04.6', W, 'non-recipient path decrypts', 'a key that is not a recipient (nor has a recipient subkey) must raise; '
+                              'a key that is not itself a recipient must not use its own secret material', where=fi.where,
+                              expected='raise PGPError' if not allowed[(a, b)] else ' / '.join(allowed[(a, b)]),
+                              found='%s path: returns %s' % (kind, render(s.ret)[:160] if s.ret is not None else None), scenario=label[(a, b)])
+        if not here:
+            ok = False
+            rep.violation('C04.6', W, 'no path for: %s' % label[(a, b)], 'PGPKey.decrypt has no path for a message %s' % label[(a, b)], where=fi.where)
+        elif ok and (a, b) in ((True, False), (False, True)) and good == 0:
+            ok = False
+            rep.violation('C04.6', W, 'no %s path' % allowed[(a, b)][0], 'PGPKey.decrypt lacks its %s arm' % allowed[(a, b)][0], where=fi.where,
+                          scenario=label[(a, b)])
+        if ok:
+            rep.ok('C04.6', W, '%s: %s' % (label[(a, b)], ' / '.join(allowed[(a, b)]) or 'raises'), scenario=label[(a, b)])
 
 
+# ------------------------------------------------------------------------------------------------ C04.7
 def ecdh(rep, prog):
     fi = prog.method('pgpy.packet.fields', 'ECDHCipherText', 'decrypt')
     rep.saw(fn=fi)
+    W = 'ECDHCipherText.decrypt'
     outs = Interp(prog, Scenario(inline=noinline)).run(fi)
     rep.analysed['paths'] += len(outs)
     for s in outs:
+        if s.raised is not None:
+            continue
         r = render(s.ret)
-        uw = [c for c in s.calls if c[0] == 'aes_key_unwrap']
-        ok = len(uw) == 1 and uw[0][1][1] == 'self.c'
-        U = 'aes_key_unwrap(%s)' % ', '.join(uw[0][1]) if uw else None
         scen = '; '.join('%s=%s' % (f[0], f[1]) for f in s.facts)
-        rep.check(ok, 'C04.7', 'ECDHCipherText.decrypt', 'unwrap %s' % (uw[0][1][1:] if uw else None),
+        uw = [c for c in s.calls if c[0].split('.')[-1] == 'aes_key_unwrap']
+        a = positional(uw[0], ['wrapping_key', 'wrapped_key', 'backend']) if len(uw) == 1 else None
+        ok = a is not None and len(a) >= 2 and a[1] == 'self.c'
+        rep.check(ok, 'C04.7', W, 'unwrap %s' % (a[1:] if a else [c[1] for c in uw]),
                   'the wrapped session key of this packet must be unwrapped', where=fi.where, scenario=scen)
-        if U:
-            r2 = r.replace(U, 'U')
-            rep.check(r2 == '(PKCS7(64).unpadder().update(U) + PKCS7(64).unpadder().finalize())', 'C04.7', 'ECDHCipherText.decrypt',
-                      'return %s' % r2, 'the unwrapped value must be returned only through PKCS#5 unpadding (update + finalize)',
-                      where=fi.where, expected='unpadder.update(unwrapped) + unpadder.finalize()', found=r2, scenario=scen)
+        if len(uw) != 1:
+            continue
+        U = call_text(uw[0])
+        # one unpadder object of PKCS7 with 64-bit blocks; the value is update(U) + finalize() of that object
+        mk = [c for c in s.calls if c[0].endswith('.unpadder') and not c[1] and not c[2]]
+        pads = [c for c in s.calls if c[0].split('.')[-1] == 'PKCS7']
+        good = len(mk) == 1 and len(pads) == 1 and mk[0][0] == call_text(pads[0]) + '.unpadder' and \
+            (pads[0][1], pads[0][2]) in ((['64'], {}), ([], {'block_size': '64'}))
+        P = call_text(mk[0]) if mk else None
+        r2 = r.replace(U, 'U')
+        if P:
+            r2 = r2.replace(P, 'P')
+        rep.check(good and r2 in ('(P.update(U) + P.finalize())', 'P.update(U) P.finalize()'), 'C04.7', W,
+                  'return %s' % r2, 'the unwrapped value must be returned only through PKCS#5 unpadding (update + finalize)',
+                  where=fi.where, expected='unpadder.update(unwrapped) + unpadder.finalize() with unpadder = PKCS7(64).unpadder()',
+                  found=r2, scenario=scen)
